@@ -153,6 +153,8 @@ def build_harness(name):
     d = os.path.join(BUILD, "h", name)
     exe = os.path.join(d, hsh)
     if os.path.exists(exe):
+        try: os.utime(exe)      # in use: keeps it out of reach of the clean-up of a concurrent run
+        except OSError: pass
         return exe, None
     os.makedirs(d, exist_ok=True)
     for old in os.listdir(d):
@@ -160,7 +162,7 @@ def build_harness(name):
         if ".tmp" in old or old == hsh:
             continue
         try:
-            if time.time() - os.path.getmtime(os.path.join(d, old)) > 600:
+            if time.time() - os.path.getmtime(os.path.join(d, old)) > 3600:
                 os.remove(os.path.join(d, old))
         except OSError: pass
     tmp = exe + ".tmp%d" % os.getpid()
@@ -429,6 +431,19 @@ def main():
         if exe is None:
             build_errors.append((h, err)); log("HARNESS BUILD FAILED %s:\n%s" % (h, err))
         else:
+            # private hard link for this run: a concurrent run that cleans the cache cannot take the binary away
+            # (the directory carries the harness name: run_chunk reports the engine of an abort from it)
+            pdir = os.path.join(BUILD, "run", "hx_%d" % os.getpid(), h)
+            priv = os.path.join(pdir, "exe")
+            try:
+                os.makedirs(pdir, exist_ok=True)
+                if os.path.exists(priv): os.remove(priv)
+                os.link(exe, priv)
+                import atexit
+                atexit.register(lambda p=os.path.dirname(pdir), me=os.getpid(): os.getpid() == me and shutil.rmtree(p, ignore_errors=True))
+                exe = priv
+            except OSError:
+                pass
             exe_by_name[h] = exe
     # corpus: minimised earlier failures, stored as case references and re-executed against the real code
     cpath = os.path.join(VERIF, "corpus", pid + ".json")
@@ -445,8 +460,23 @@ def main():
             total["bad"].extend(t1["bad"]); total["hashes_nt"].update(t1["hashes_nt"]); total["crashes"].extend(t1["crashes"])
             for k, v in t1["known"].items():
                 total["known"][k] = total["known"].get(k, 0) + v
-    bad = [b for v in total["bad"] for b in parse_bad_multi(v)]
-    bad = [b for b in bad if relevant(pid, cfg, b)]
+    allbad = [b for v in total["bad"] for b in parse_bad_multi(v)]
+    bad = [b for b in allbad if relevant(pid, cfg, b)]
+    # differential wiring rule (C09: "the resulting state is identical to applying the same actions one by one outside
+    # the model"): a property predicate of an action that fails on a step of Model::run_step (inside engines) while the
+    # SAME predicate of the SAME action holds on every direct call of that action in this run (outside engines) shows
+    # that the model does not apply the action as it is applied outside - wrong argument, wrong moment, wrong object
+    wir = cfg.get("wiring")
+    if wir:
+        wkey = lambda b: (b["cmd"], b["tag"], b["detail"].split(" ")[0])
+        outside = {wkey(b) for b in allbad if b["kind"] == "PROPFAIL" and b["where"] and b["where"][0] in wir["outside"]}
+        for b in allbad:
+            if (b["kind"] == "PROPFAIL" and b["tag"] != pid and b["where"] and b["where"][0] in wir["inside"]
+                    and b["cmd"] in wir["commands"] and wkey(b) not in outside):
+                nb = dict(b); nb["tag"] = pid
+                nb["detail"] = ("state_differs_from_actions_applied_outside: inside Model::run_step %s fails %s %s, while every direct call of "
+                                "the action in this run satisfies it" % (b["cmd"], b["tag"], b["detail"][:200]))
+                bad.append(nb)
 
     def handle_propfails(blist, label):
         done = set()
